@@ -1,6 +1,6 @@
 From AB Require Import Desc Generated GeneratedWf.
 From AB Require Import Tree TreeDefs TreeProofs TreeProofs2 TreeProofs3 TreeProofs4 TreeWF TreeWFProofs TreeRun TreeFacts.
-From AB Require Import Construct ConstructProofs ConstructWF TreeEdit TreeEditProofs TreeEditProofs2 TreeEditProofs3 TreeEditProofs4 TreeEditProofs5 TreeEditFacts ConstructFull.
+From AB Require Import Construct ConstructProofs ConstructWF TreeEdit TreeEditProofs TreeEditProofs2 TreeEditProofs3 TreeEditProofs4 TreeEditProofs5 TreeEditProofs6 TreeEditFacts ConstructFull.
 From Coq Require Import ZArith List Bool.
 Import ListNotations.
 
@@ -225,7 +225,8 @@ Proof. exact ex_item_hyps. Qed.
    pivot token is computed as the implementation computes it (the chain `_f_pivot` extracted from the source,
    c_pivots, evaluated on the children: the nearest present sibling); for a left field the separators and then
    y's tokens go right after the pivot, for a right field y's tokens and then the separators go right before it.
-   remove_opt cuts everything between the pivot and the far end of the child and empties the slot.
+   remove_opt cuts everything between the pivot and the far end of the child - or the child alone when it touches what
+   lies beyond it - and empties the slot.
    classes_pivots_ok: every class's extracted pivot chains are the ones of the generic scheme (part of wf_desc,
    C05_generated_classes_wf; C05_pivots_ok_all for the classes the harness evaluates with). *)
 Theorem C05_pivots_ok_all : classes_pivots_ok all_classes.
@@ -239,6 +240,14 @@ Theorem C05_create_optional : forall cs, classes_ok cs -> classes_pivots_ok cs -
         /\ node_toks root = pre ++ [] ++ post /\ node_toks root' = pre ++ Mnew ++ post)
   /\ (forall t, In t (leaves root') -> In t (leaves root) \/ In t (seps ++ node_toks y)).
 Proof. exact create_opt_ok. Qed.
+(* remove_opt (as repaired by fixes/optional-remove-keeps-separator-when-glued.patch): the child X leaves together with
+   the tokens g between the pivot and the child - unless the child touches what lies beyond it (fields._touches,
+   evaluated by TreeEdit.opt_touches): then g stays, so that the root's token list loses exactly one infix:
+   g ++ X, X ++ g, or just X (= [] ++ X). When g stays and the owner of the field goes on beyond the child, g stays
+   inside the owner (`Assets:Cash 10CAD`, number = None); when the child was the last / first thing of its owner
+   (`@ 10 USD;c`, currency = None) g becomes a gap of the deepest ancestor that goes on beyond the pivot, and of the
+   Repeated holding the path's item if that goes on beyond it too (TreeEdit.regap; TreeEditProofs6: gap_unit_ok,
+   gap_item_ok, gap_at_ok). All cases are covered. *)
 Theorem C05_remove_optional : forall cs, classes_ok cs -> classes_pivots_ok cs -> forall root p f x root',
   HWF cs root -> remove_opt cs root p f = Some (x, root') ->
   HWF cs root' /\ WF cs root' /\ HWF cs x /\ exempt (UNode x) = false
@@ -246,6 +255,18 @@ Theorem C05_remove_optional : forall cs, classes_ok cs -> classes_pivots_ok cs -
         /\ node_toks root = pre ++ Mold ++ post /\ node_toks root' = pre ++ [] ++ post)
   /\ (forall t, In t (leaves root') -> In t (leaves root)).
 Proof. exact remove_opt_ok. Qed.
+(* the case where the separators stay outside the owner of the field is met: `    Assets:Cash 10 CAD @ 5 USD;c`,
+   price.currency = None gives `... @ 5 ;c` (a dump of the real posting; opt_out = the blank that stays) *)
+Example C05_remove_optional_regap_hyps :
+  hwf_b all_classes ex_regap_posting = true
+  /\ map k_text (opt_out all_classes ex_regap_posting [SField "_price"] "_currency") = [" "]
+  /\ match remove_opt all_classes ex_regap_posting [SField "_price"] "_currency" with
+     | Some (x, r) => hwf_b all_classes r = true
+                      /\ map k_text (node_toks r) = ["    "; "Assets:Cash"; " "; "10"; " "; "CAD"; " "; "@"; " "; "5"; " "; ";c"; ""; ""]
+                      /\ map k_text (node_toks x) = ["USD"]
+     | None => False
+     end.
+Proof. exact ex_regap_hyps. Qed.
 (* histories over all slot kinds: edit2 = edit (replace a sub-tree | insert an item | remove an item) + create the
    child of an empty optional slot from a re-attached donor + remove the child of an optional slot *)
 Theorem C05_edit_step_all_slots : forall cs, classes_ok cs -> classes_pivots_ok cs ->
